@@ -1012,3 +1012,9 @@ package lnwallet
 //@
 //@ func (pd *paymentDescriptor) isAdd
 //@   inline
+//@
+//@ // ---- our own output on a revoked commitment goes into the justice transactions next to the revoked to_local output; those
+//@ // ---- transactions carry no lock time, so the script it is handed over with must not demand one (finding F31: on a script-enforced
+//@ // ---- lease channel that WE opened it demands the lease expiry - every justice variant containing to_local is invalid until then)
+//@ func NewBreachRetribution
+//@   site call CommitScriptToRemote as our-output-spendable-without-lock-time: assert !(chanState.ChanType.HasLeaseExpiration() && !arg(1))
